@@ -4041,6 +4041,10 @@ func (s *BgpServer) ResetPeer(ctx context.Context, r *api.ResetPeerRequest) erro
 		return fmt.Errorf("nil request")
 	}
 	return s.mgmtOperation(func() error {
+		// the caller may have given up while waiting for the management goroutine
+		if err := ctx.Err(); err != nil {
+			return err
+		}
 		addr := r.Address
 		comm := r.Communication
 		if r.Soft {
